@@ -368,8 +368,14 @@ class _Frame:
         if isinstance(e, ast.IfExp):
             self.ty(e.test, state)
             a, b = self.refine(e.test, state)
-            ta = self.ty(e.body, a if a is not None else state)
-            tb = self.ty(e.orelse, b if b is not None else state)
+            if a is None and b is None:
+                return None
+            if a is None:
+                return self.ty(e.orelse, b)
+            if b is None:
+                return self.ty(e.body, a)
+            ta = self.ty(e.body, a)
+            tb = self.ty(e.orelse, b)
             return join(ta, tb)
         if isinstance(e, ast.BoolOp):
             ts = [self.ty(v, state) for v in e.values]
